@@ -9,6 +9,9 @@ import (
 	"strings"
 
 	"golang.org/x/net/http/httpguts"
+	utilproxy "k8s.io/apimachinery/pkg/util/proxy"
+	"k8s.io/apiserver/pkg/authentication/user"
+	genericapirequest "k8s.io/apiserver/pkg/endpoints/request"
 
 	gwtransport "github.com/kubewharf/kubegateway/pkg/transport"
 
@@ -130,7 +133,8 @@ func clientExtraSuffix(r *rand.Rand) string {
 	case 1:
 		return rig.Pick(r, []string{"Scopes", "SCOPES", "a-B"})
 	default:
-		return gwtransport.VerifHeaderKeyEscape(pick(r, keyPool, upperKeys, 8))
+		h, _ := realExtraHeader(pick(r, keyPool, upperKeys, 8))
+		return strings.TrimPrefix(h, extraPrefix)
 	}
 }
 
@@ -350,30 +354,35 @@ func escapeSweep(c *rig.Ctx) {
 // sweepKey checks one extra key (also the replay entry point for a case of the form {"key": hex}).
 func sweepKey(c *rig.Ctx, k string) {
 	for once := true; once; once = false {
-		esc := gwtransport.VerifHeaderKeyEscape(k)
-		header := http.CanonicalHeaderKey("Impersonate-Extra-" + esc)
-		valid := httpguts.ValidHeaderFieldName(header)
-		un, uerr := url.PathUnescape(esc)
-		dec := strings.ToLower(header[len("Impersonate-Extra-"):])
-		if d, err := url.PathUnescape(dec); err == nil {
-			dec = d
-		}
 		cs := map[string]string{"key": rig.Hex(k)}
 		c.Case("escape:"+k, true, "escape-sweep", nil)
-		// judge on the real functions: legal header name, exact round trip, decoded key = the key
+		header, err := realExtraHeader(k)
+		if err != nil {
+			c.Fail(rig.Failure{Kind: "diff", Class: "c02.escape-api", Case: cs, What: fmt.Sprintf("WrapRequest with the extra key %q: %v", k, err)})
+			continue
+		}
+		valid := httpguts.ValidHeaderFieldName(header)
+		dec := strings.ToLower(strings.TrimPrefix(header, extraPrefix))
+		var uerr error
+		if d, err := url.PathUnescape(dec); err == nil {
+			dec = d
+		} else {
+			uerr = err
+		}
+		// judge on the real functions: legal header name, and a kube-apiserver decodes exactly the key
 		lower := []byte(k)
 		for i, ch := range lower {
 			if 'A' <= ch && ch <= 'Z' {
 				lower[i] = ch + 32
 			}
 		}
-		if !valid || uerr != nil || un != k {
+		if !valid || uerr != nil {
 			c.Fail(rig.Failure{Kind: "judge", Class: "c02.escape-roundtrip", Case: cs,
-				What: fmt.Sprintf("headerKeyEscape(%q) = %q: valid header name=%v, PathUnescape gives %q err=%v", k, esc, valid, un, uerr)})
+				What: fmt.Sprintf("extra key %q is sent as %q: valid header name=%v, PathUnescape of the lower-cased suffix: err=%v", k, header, valid, uerr)})
 			continue
 		}
 		if dec != k {
-			// the property wants the key itself; losing exactly the ASCII case is the repaired defect C02-extra-key-case
+			// losing exactly the ASCII case is the repaired defect C02-extra-key-case
 			class := "c02.escape-decode"
 			if dec == string(lower) {
 				class = "c02.extra-key-case"
@@ -391,11 +400,49 @@ func sweepKey(c *rig.Ctx, k string) {
 			c.Fail(rig.Failure{Kind: "diff", Class: "c02.model-error", What: "model error: " + err.Error(), Case: cs})
 			continue
 		}
-		if rig.UnHex(m.Escaped) != esc || rig.UnHex(m.Header) != header || m.Valid != valid || m.Unescaped == nil || rig.UnHex(*m.Unescaped) != un || rig.UnHex(m.Decoded) != dec {
-			c.Fail(rig.Failure{Kind: "diff", Class: "c02.escape", Case: cs, Impl: []string{esc, header, un, dec}, Model: m,
-				What: fmt.Sprintf("headerKeyEscape(%q): code %q header %q decoded %q, model %q header %q decoded %q", k, esc, header, dec, rig.UnHex(m.Escaped), rig.UnHex(m.Header), rig.UnHex(m.Decoded))})
+		if rig.UnHex(m.Header) != header || m.Valid != valid || rig.UnHex(m.Decoded) != dec {
+			c.Fail(rig.Failure{Kind: "diff", Class: "c02.escape", Case: cs, Impl: []string{header, dec}, Model: m,
+				What: fmt.Sprintf("extra key %q: code sends %q (decoded %q), model %q (decoded %q)", k, header, dec, rig.UnHex(m.Header), rig.UnHex(m.Decoded))})
 		}
 	}
+}
+
+const extraPrefix = "Impersonate-Extra-"
+
+var escapeRT = gwtransport.NewDynamicImpersonatingRoundTripper(http.DefaultTransport)
+
+// realExtraHeader asks the REAL code, through the package's public API (NewDynamicImpersonatingRoundTripper + WrapRequest of the
+// upgrade round tripper interface), under which header name it sends the extra key k.
+func realExtraHeader(k string) (string, error) {
+	urt, ok := escapeRT.(utilproxy.UpgradeRequestRoundTripper)
+	if !ok {
+		return "", fmt.Errorf("the impersonating round tripper is no UpgradeRequestRoundTripper")
+	}
+	req, err := http.NewRequest("GET", "http://upstream.invalid/api", nil)
+	if err != nil {
+		return "", err
+	}
+	req = req.WithContext(genericapirequest.WithUser(req.Context(), &user.DefaultInfo{Name: "u", Extra: map[string][]string{k: {"v"}}}))
+	var out *http.Request
+	if msg, panicked := rig.Recover(func() { out, err = urt.WrapRequest(req) }); panicked {
+		return "", fmt.Errorf("panic: %s", msg)
+	}
+	if err != nil {
+		return "", err
+	}
+	found := ""
+	for name := range out.Header {
+		if strings.HasPrefix(name, extraPrefix) {
+			if found != "" {
+				return "", fmt.Errorf("two extra headers: %q %q", found, name)
+			}
+			found = name
+		}
+	}
+	if found == "" {
+		return "", fmt.Errorf("no %s* header written", extraPrefix)
+	}
+	return found, nil
 }
 
 // jsonSweep ties the model's jsonCarried (what a SubjectAccessReview carries of a string) to Go's encoding/json round trip.
